@@ -18,7 +18,7 @@ TraceInit ==
     /\ tid \in 1..Len(Traces)
     /\ l = 1
     /\ InitWith([fam |-> "trace", ae |-> TC.ae, ws |-> TC.ws, sval |-> TC.sval, bval |-> TC.bval, oval |-> TC.oval,
-                 fuel |-> TC.fuel, lib |-> 0],
+                 fuel |-> TC.fuel, lib |-> 0, paths |-> FlatPaths, decoys |-> <<>>],
                 [main |-> TC.files.main, base |-> TC.files.base, inc |-> TC.files.inc])
 IsEvent(a) == l <= Len(Ev) /\ Ev[l].a = a /\ l' = l + 1 /\ UNCHANGED tid
 TrRender == IsEvent("render") /\ Match(res, Ev[l].obs) /\ UNCHANGED <<vars, step>>
